@@ -286,7 +286,7 @@ def conds(tier):
                     P("bm", "bool"), P("bn", "bool"), P("er", "bool"), P("ex", "int", 0, 4), P("et", "int", 0, 4),
                     P("hx", "bool"), P("ht", "bool"), P("sx", "bool"), P("st", "bool"), P("blk", "int", 1, 3),
                     P("rl", "int", 0, 2), P("xl", "int", 0, 2)],
-                   pre=["(f != 0 or not er)", "rl == xl or er"] + (["si < 2 and et == ex and blk == 1 and hx == ht and sx == st"] if q else ["hx == ht and (bn or blk == 1) and si < 2 and ex > 0 and et > 0"]),
+                   pre=["(f != 0 or not er)", "rl == xl or er"] + (["si < 2 and et == ex and blk == 1 and hx == ht and sx == st and ((rl == 0 and xl == 0) or (er and not (gf or mh or bm or bn or hx or sx)))"] if q else ["hx == ht and (bn or blk == 1) and si < 2 and ex > 0 and et > 0 and ((rl == 0 and xl == 0) or (er and not (mh or bm or bn)))"]),
                    shard=["f", "gf", "gft", "mh"] + ([] if q else ["bm", "bn"]), timeout=600 if q else 2400, functions=FUNCS))
     for (m, n) in ([(2, 2), (3, 3)] if q else [(2, 2), (3, 3), (3, 4)]):
         cs.append(Cond("pair-m%d-n%d" % (m, n), "harness.c02:pair", e1_params(m, n) + [P("f", "int", 0, 5), P("four", "bool")],
